@@ -13,7 +13,10 @@ def server_bound(o):
 
 
 def config(F, which):
-    body = F.impl_method("core::future::future::Future", "selium_server::topic::%s::Topic" % which, "poll")
+    body0 = F.impl_method("core::future::future::Future", "selium_server::topic::%s::Topic" % which, "poll")
+    # helper functions the poll body is split into are looked through; the sink combinators (modelled as operations) stay calls
+    keep = [p for p in F.bodies if "::sink::" in p or p.startswith("<selium_server::sink") or "::project" in p]
+    body = F.inlined(body0, keep=keep)
     adt = F.adt("selium_server::topic::%s::TopicProj" % which)
     names = [f["name"] for f in adt["variants"][0]["fields"]]
     if which == "pubsub":
